@@ -98,3 +98,8 @@ fn tostr_Atomic(a: &Atomic) -> (r: String)
 fn verif_msg() -> String { unimplemented!() }
 pub assume_specification<T: std::cmp::Ord> [std::cmp::max] (a: T, b: T) -> (r: T)
     ensures r == (if vstd::std_specs::cmp::OrdSpec::cmp_spec(&a, &b) == std::cmp::Ordering::Greater { a } else { b });
+// trusted: `impl Display for HctlTreeNode` prints the stored text (write!(f, "{}", self.formula_str))
+#[verifier::external_body]
+fn tostr_HctlTreeNode(a: &HctlTreeNode) -> (r: String)
+    ensures r@ == a.formula_str@
+{ unimplemented!() }
